@@ -124,7 +124,10 @@ func splitMessages(buf []byte) ([]hsMsg, error) {
 // tls13=false: all handshake records before the first ChangeCipherSpec.
 // tls13=true:  all records of type handshake (encrypted ones carry the outer type application_data).
 // encrypted: the records that follow and are protected (<=1.2: after CCS; 1.3: type 23).
-func plainFlight(recs []tlsx.Record, tls13 bool) (msgs []hsMsg, encrypted []tlsx.Record, nCCS int, err error) {
+//
+// alerts: the plaintext alert records (RFC 5246 7.2: two bytes, level and description). An alert record that
+// follows the ChangeCipherSpec (<= 1.2) is protected; it is counted in opaque and never interpreted.
+func plainFlight(recs []tlsx.Record, tls13 bool) (msgs []hsMsg, encrypted []tlsx.Record, alerts []wAlert, opaque int, nCCS int, err error) {
 	var buf []byte
 	afterCCS := false
 	for _, r := range recs {
@@ -138,6 +141,10 @@ func plainFlight(recs []tlsx.Record, tls13 bool) (msgs []hsMsg, encrypted []tlsx
 			buf = append(buf, r.Payload...)
 		case r.Type == recAlert && !afterCCS && len(r.Payload) == 2:
 			// plaintext alert (failed handshakes only): not a handshake message
+			alerts = append(alerts, wAlert{Level: r.Payload[0], Desc: r.Payload[1]})
+		case r.Type == recAlert:
+			opaque++
+			encrypted = append(encrypted, r)
 		default:
 			encrypted = append(encrypted, r)
 		}
@@ -146,7 +153,15 @@ func plainFlight(recs []tlsx.Record, tls13 bool) (msgs []hsMsg, encrypted []tlsx
 	if e != nil && err == nil {
 		err = e
 	}
-	return m, encrypted, nCCS, err
+	return m, encrypted, alerts, opaque, nCCS, err
+}
+
+// wAlert is one alert seen on the wire.
+type wAlert struct {
+	Dir       string `json:"direction"` // "c2s" (sent by the client) or "s2c" (delivered to the client)
+	Level     byte   `json:"level"`
+	Desc      byte   `json:"description"`
+	Protected bool   `json:"protected,omitempty"` // was inside a protected record the harness opened
 }
 
 type wext struct {
@@ -472,6 +487,14 @@ type wire struct {
 	Resumed  bool // abbreviated handshake (<=1.2): server Finished precedes client Finished
 	EEALPN   string
 	EEok     bool
+	// alerts of both directions in wire order per direction (plaintext ones; protected ones once opened)
+	Alerts []wAlert
+	// alert-typed or protected records the harness could not read (a protected alert may hide in them)
+	OpaqueAlerts int
+	Unopened     int  // TLS 1.3: protected records no available traffic secret opened
+	NoSH         bool // the server never sent a ServerHello (it refused the ClientHello)
+	// TLS 1.3: Finished verify_data of both sides once the protected flights were opened
+	Fin13S, Fin13C []byte
 }
 
 func isHRR(h *wServerHello) bool {
@@ -491,23 +514,40 @@ func parseWire(c2s, s2c []byte) (*wire, error) {
 	if n := len(cr); n == 0 || cr[n-1].End() != len(c2s) {
 		return nil, errors.New("c2s stream does not split into whole records")
 	}
-	// The first server record carries the ServerHello: it decides the version.
-	if sr[0].Type != recHandshake {
-		return nil, fmt.Errorf("first server record has type %d", sr[0].Type)
+	// The first server record carries the ServerHello: it decides the version. A server that refuses the
+	// ClientHello answers with a plaintext alert instead.
+	var err error
+	if sr[0].Type == recAlert && len(sr[0].Payload) == 2 {
+		w.NoSH = true
+	} else {
+		if sr[0].Type != recHandshake {
+			return nil, fmt.Errorf("first server record has type %d", sr[0].Type)
+		}
+		first, err := splitMessages(sr[0].Payload)
+		if (err != nil && len(first) == 0) || len(first) == 0 || first[0].Typ != hsServerHello {
+			return nil, errors.New("first server message is not a ServerHello")
+		}
+		sh0, err := parseServerHello(first[0])
+		if err != nil {
+			return nil, err
+		}
+		w.Vers = sh0.version()
+		w.TLS13 = w.Vers == 0x0304
 	}
-	first, err := splitMessages(sr[0].Payload)
-	if (err != nil && len(first) == 0) || len(first) == 0 || first[0].Typ != hsServerHello {
-		return nil, errors.New("first server message is not a ServerHello")
-	}
-	sh0, err := parseServerHello(first[0])
-	if err != nil {
-		return nil, err
-	}
-	w.Vers = sh0.version()
-	w.TLS13 = w.Vers == 0x0304
 	var e1, e2 error
-	w.S2C, w.EncS2C, _, e1 = plainFlight(sr, w.TLS13)
-	w.C2S, w.EncC2S, _, e2 = plainFlight(cr, w.TLS13)
+	var as, ac []wAlert
+	var nos, noc int
+	w.S2C, w.EncS2C, as, nos, _, e1 = plainFlight(sr, w.TLS13)
+	w.C2S, w.EncC2S, ac, noc, _, e2 = plainFlight(cr, w.TLS13)
+	for _, a := range ac {
+		a.Dir = "c2s"
+		w.Alerts = append(w.Alerts, a)
+	}
+	for _, a := range as {
+		a.Dir = "s2c"
+		w.Alerts = append(w.Alerts, a)
+	}
+	w.OpaqueAlerts = nos + noc
 	if e1 != nil {
 		return nil, fmt.Errorf("s2c: %v", e1)
 	}
@@ -551,10 +591,13 @@ func parseWire(c2s, s2c []byte) (*wire, error) {
 			w.Status = m.Body
 		}
 	}
-	if len(w.CHs) == 0 || len(w.SHs) == 0 {
+	if len(w.CHs) == 0 || (len(w.SHs) == 0 && !w.NoSH) {
 		return nil, errors.New("no hello on the wire")
 	}
 	w.CH = w.CHs[0]
+	if w.NoSH {
+		return w, nil
+	}
 	w.SH = w.SHs[len(w.SHs)-1]
 	if !w.TLS13 {
 		// abbreviated handshake: no Certificate/ServerHelloDone in the plaintext server flight
